@@ -33,11 +33,11 @@ type Explorer struct {
 
 	Execs, Cut, States, Transitions int64
 	SlowExecs, SlowCut              int64
-	Capped                         bool
-	MaxPoints                      int64
-	visited                        sync.Map // state key -> smallest preemption count seen
-	outcomes                       sync.Map
-	stop                           atomic.Bool
+	Capped                          bool
+	MaxPoints                       int64
+	visited                         sync.Map // state key -> smallest preemption count seen
+	outcomes                        sync.Map
+	stop                            atomic.Bool
 }
 
 // work is one unexplored alternative: the choices of the execution it branches from (shared, never
@@ -193,12 +193,21 @@ func preemptions(ps []Point) int {
 
 // Explore runs the search with a pool of workers sharing a LIFO work list.
 func (e *Explorer) Explore() {
-	if e.Workers <= 0 {
+	if e.Workers <= 0 || HasSharedState() {
 		e.Workers = 1
 	}
 	var mu sync.Mutex
 	cond := sync.NewCond(&mu)
-	stack := []work{{nil, -1, 0, 0}}
+	// iterative context bounding in one pass: pending alternatives are kept per number of preemptions
+	// and the cheapest are run first (LIFO within one level), so that every execution with k
+	// preemptions is explored before any with k+1
+	nb := 1
+	if e.Bound > 0 {
+		nb = e.Bound + 1
+	}
+	stacks := make([][]work, nb)
+	stacks[0] = []work{{nil, -1, 0, 0}}
+	pending := 1
 	active := 0
 	var wg sync.WaitGroup
 	for w := 0; w < e.Workers; w++ {
@@ -207,24 +216,38 @@ func (e *Explorer) Explore() {
 			defer wg.Done()
 			for {
 				mu.Lock()
-				for len(stack) == 0 && active > 0 && !e.stop.Load() {
+				for pending == 0 && active > 0 && !e.stop.Load() {
 					cond.Wait()
 				}
-				if e.stop.Load() || (len(stack) == 0 && active == 0) {
+				if e.stop.Load() || (pending == 0 && active == 0) {
 					mu.Unlock()
 					cond.Broadcast()
 					return
 				}
-				it := stack[len(stack)-1]
-				stack = stack[:len(stack)-1]
+				var it work
+				for b := range stacks {
+					if n := len(stacks[b]); n > 0 {
+						it = stacks[b][n-1]
+						stacks[b] = stacks[b][:n-1]
+						break
+					}
+				}
+				pending--
 				active++
 				mu.Unlock()
 				_, next := e.exec(it.prefix(), it.pre)
 				mu.Lock()
-				stack = append(stack, next...)
+				for _, nx := range next {
+					b := nx.pre
+					if b >= nb {
+						b = nb - 1
+					}
+					stacks[b] = append(stacks[b], nx)
+				}
+				pending += len(next)
 				active--
 				if (e.MaxExecs > 0 && atomic.LoadInt64(&e.Execs) >= e.MaxExecs) || (!e.Deadline.IsZero() && time.Now().After(e.Deadline)) {
-					if len(stack) > 0 || active > 0 {
+					if pending > 0 || active > 0 {
 						e.Capped = true
 					}
 					e.stop.Store(true)
